@@ -306,12 +306,15 @@ func c15Run(c lib.Case, env *lib.Env) lib.Result {
 	}
 	// optimizer determinism for fixed parameters (bsdiff hooks perturb workers, dispatcher and collector)
 	if firstPatch != nil && s.Shape != "bigfresh" {
-		for _, op := range []lib.OptParams{{Partitions: 2}, {Partitions: 5, ForceMapAll: true}, {Partitions: 0, SSC: 4}} {
+		for _, op := range []lib.OptParams{{Partitions: 2}, {Partitions: 5, ForceMapAll: true}, {Partitions: 0, SSC: 4}, {Partitions: 0, SSC: -1}} {
 			op.Comp = &lib.Comp{Algo: "none"}
 			var first []byte
 			var sums []string
 			shared := &lib.OptPools{} // runs 1, 2, 4, 5, ... share pools that earlier runs have used
 			optRuns := s.Runs
+			if op.SSC < 0 {
+				optRuns = 4 // one run per CPU count
+			}
 			if s.Shape == "shares" && env.Flavor == "plain" {
 				optRuns = 4 * s.Runs // map-order ties show up in a fraction of the runs only
 			}
